@@ -52,6 +52,7 @@ type Unit struct {
 	Validate  int      `json:"validate"` // number of translator-validation vectors (quick)
 	NoValidate bool    `json:"no_validate"`
 	NoMerge   bool     `json:"no_merge"`
+	PanicFreedom bool  `json:"panic_freedom"` // the property of these entries is the absence of panics on every path (no explicit assertion needed)
 	ProtoDepth int     `json:"proto_depth"`
 	GroupOrder string  `json:"group_order"` // prime order of the modelled bn256 groups (decimal); default: the real BN254 order
 	Race      bool     `json:"race"` // happens-before data race detection on repository code
